@@ -20,6 +20,11 @@ FILES = ["SparseGrids/tsgGrid%s.cpp" % g for g in ("Global", "Sequence", "LocalP
 VALUE_WRITERS = ("::setValues", "::addValues", "::resize")
 
 
+def member_txt(e):
+    e = strip(e)
+    return short(e.get("field") or "") if e is not None and e.get("k") == "MemberExpr" else txt(e or {})
+
+
 def run(chk):
     db = DB("serial")
     db.load_all()
@@ -195,14 +200,18 @@ def run(chk):
             continue
         nk += 1
         chk.saw(f)
-        edges = [(txt(strip(c)), tr) for c, tr in cond_edges_dominating(f, vm[0])]
-        ok = ("is_complete", True) in edges or ("!is_complete", False) in edges
-        chk.ob("C01-D3.kronecker", f.key, "van_matrix only when the hierarchy is complete", ok, f.loc(vm[0]), "dominating conditions: %s" % [e for e in edges if "complete" in e[0]])
-        # the flag comes from computeDAGup(points, is_complete) and is not written otherwise
-        ic = [d for d in f.locals().values() if d.get("name") == "is_complete"]
-        dag = [c for c in f.calls() if (callee(c) or "").endswith("::computeDAGup") and len(call_args(c)) == 2 and txt(strip(call_args(c)[1])) == "is_complete" and txt(strip(call_args(c)[0])) == "points"]
-        others = [n for n in f.walk() if n.get("k") == "BinaryOperator" and n.get("op") == "=" and txt(strip(n["c"][0])) == "is_complete"]
-        chk.ob("C01-D3.kronecker", f.key, "completeness flag produced by computeDAGup(points, is_complete)", bool(ic) and len(dag) == 1 and not others and dag[0].get("l", 0) < vm[0].get("l", 0), f.loc(dag[0]) if dag else f.where)
+        # the completeness flag is whatever variable is handed to computeDAGup(points, flag) as its output argument
+        dag = [c for c in f.calls() if (callee(c) or "").endswith("::computeDAGup") and len(call_args(c)) == 2 and member_txt(call_args(c)[0]) == "points"]
+        flag = var_of(strip(call_args(dag[0])[1])) if len(dag) == 1 else None
+        conds = [(strip(c), tr) for c, tr in cond_edges_dominating(f, vm[0])]
+
+        def is_flag(e):
+            return e is not None and e.get("k") == "DeclRefExpr" and e.get("did") == flag
+        ok = flag is not None and any((is_flag(e) and tr) or (e.get("k") == "UnaryOperator" and e.get("op") == "!" and is_flag(strip(e["c"][0])) and not tr) for e, tr in conds)
+        chk.ob("C01-D3.kronecker", f.key, "van_matrix only when the hierarchy is complete", ok, f.loc(vm[0]), "dominating conditions: %s" % [(txt(e), tr) for e, tr in conds][:4])
+        others = [n for n in f.walk() if n.get("k") == "BinaryOperator" and n.get("op") == "=" and var_of(n["c"][0]) == flag] if flag is not None else [None]
+        chk.ob("C01-D3.kronecker", f.key, "completeness flag produced by computeDAGup(points, flag) and by nothing else", flag is not None and not others and bool(must_pass_before(f, vm[0], lambda x: x is dag[0])),
+               f.loc(dag[0]) if dag else f.where)
     chk.floor("C01-D3.kronecker", nk, 5, "instantiations of recomputeSurpluses")
     # computeDAGup must clear the flag when a parent is missing
     ncd = 0
